@@ -44,6 +44,8 @@ def reference():
         import emd
         _REF['sift'] = emd.sift.sift(signal(), **call_opts()).tobytes()
         _REF['mask_sift'] = emd.sift.mask_sift(signal(), max_imfs=2, mask_freqs=0.25, **call_opts()).tobytes()
+        np.random.seed(7)
+        _REF['ensemble_sift'] = emd.sift.ensemble_sift(signal(), nensembles=2, nprocesses=2, max_imfs=2, **call_opts()).tobytes()
     return _REF
 
 
@@ -91,6 +93,10 @@ def run_history_here(codes, workdir, variant='sift'):
             verbose = NAMES[a] if a else None
             f = getattr(emd.sift, variant)
             kw = dict(max_imfs=2, mask_freqs=0.25) if variant == 'mask_sift' else {}
+            if variant == 'ensemble_sift':
+                # a pooled variant (two worker processes), seeded so that the result is comparable
+                kw = dict(nensembles=2, nprocesses=2, max_imfs=2)
+                np.random.seed(7)
             opts = call_opts()
             try:
                 out = f(bad if b else x, verbose=verbose, **kw, **opts)
@@ -206,7 +212,7 @@ def run(ctx):
     ctx.rule = ('every history of length 1..%d over a 23-op alphabet {set_up(level in None/CRITICAL/WARNING/INFO/DEBUG, with/without '
                 'log file), set_level x4, disable, enable, sift(verbose in None+4 levels, nested option dictionaries with 9-digit floats, fresh per call) returning / raising}, each in a freshly '
                 'forked never-set-up process (so both the never-set-up and the set-up state are starting points); plus random '
-                'histories up to length 12 incl. mask_sift; observed: get_level(), the level of the console handler read from the logging module itself, and the call outcome after every step; '
+                'histories up to length 12 incl. mask_sift and ensemble_sift on two worker processes; observed: get_level(), the level of the console handler read from the logging module itself, and the call outcome after every step; '
                 'non-trivial = contains a call with a verbosity override' % depth)
     ctx.proof(extra=['props/Prop_Tie_Logger.v', 'props/Prop_Tie_Misc.v'])  # translation tie: program regenerated from the source + refinement theorems
     reference()
@@ -246,7 +252,12 @@ def run(ctx):
     rcases = []
     for i in range(nrand):
         ln = ctx.rng.randint(4, 12)
-        rcases.append(([ctx.rng.choice(ALPHABET) for _ in range(ln)], 'mask_sift' if i % 4 == 0 else 'sift'))
+        rcases.append(([ctx.rng.choice(ALPHABET) for _ in range(ln)], 'mask_sift' if i % 4 == 0 else ('ensemble_sift' if i % 4 == 1 else 'sift')))
+    # fixed histories for the pooled variant: a call WITHOUT an override at every non-default console level (set by set_up or by
+    # set_level), returning and raising - whatever a variant does around its worker pool, the level afterwards is the level before
+    for L in (50, 30, 10, 20):
+        rcases.append(([[0, L, 0], [4, 0, 0], [4, 0, 1], [4, 10, 0]], 'ensemble_sift'))
+        rcases.append(([[0, 0, 0], [1, L, 0], [4, 0, 0], [4, 50, 1], [4, 0, 0]], 'ensemble_sift'))
     mo = ctx.model_outputs(IMPORTS, [zlistlist(c) for c, _ in rcases], 'run_trace', shard=100)
     for (codes, variant), m in zip(rcases, mo):
         tr, reals = forked(codes, ctx.work, variant)
